@@ -110,7 +110,15 @@ def make_sm_chart(spec):
     via = spec.get("via", "from_msd")
     f = list(spec["fields"])
     extra = spec.get("extra")
-    if via == "blank_edit":
+    if via == "empty_shuffled":
+        # an empty SMChart filled key by key in an arbitrary order: the serialized field order is the documented one
+        c = SMChart()
+        order = spec.get("order") or list(range(6))
+        for fi in order:
+            c[SM_FIELDS[fi]] = f[fi]
+        if extra is not None:
+            c.extradata = list(extra)
+    elif via == "blank_edit":
         c = SMChart.blank()
         for attr, v in zip(SM_ATTRS, f):
             setattr(c, attr, v)
